@@ -4,7 +4,7 @@
    the tie executes).  The descriptor of a field - key, required, multiline, delim, strip, kind, as dumped from
    the compiled Go struct tags - plays the role of C9G's "kind"; a value carries its descriptor. *)
 From Coq Require Import List Ascii String Bool Arith NArith ZArith Lia.
-Require GS V3 V11 A1 D3 R2 L10 C9 C9G SchemaDefs.
+Require GS V3 V11 A1 D3 R2 R2u L10 C9 C9G SchemaDefs.
 Import ListNotations.
 
 Definition str := list ascii.
@@ -30,12 +30,23 @@ Definition parse_uint (t : str) : option N :=
 (* strings.Trim(x, cutset) for an ASCII cutset *)
 Definition in_set (cs : str) (c : ascii) : bool := existsb (fun d => GS.ceq c d) cs.
 Definition trim_set (cs : str) (x : str) : str := L10.trim (in_set cs) x.
-(* strings.Fields on ASCII whitespace *)
+(* strings.Fields: fields are separated by runs of Unicode whitespace (unicode.IsSpace on UTF-8: the one-byte
+   spaces and the encodings recognised by V11.sp2 / V11.sp3) *)
+Definition flush (cur : str) : list str := match cur with [] => [] | _ => [rev cur] end.
 Fixpoint fields_go (cur : str) (x : str) : list str :=
   match x with
-  | [] => match cur with [] => [] | _ => [rev cur] end
-  | c :: r => if GS.is_space c then (match cur with [] => fields_go [] r | _ => rev cur :: fields_go [] r end)
-              else fields_go (c :: cur) r
+  | [] => flush cur
+  | c :: r =>
+      if GS.is_space c then flush cur ++ fields_go [] r
+      else match r with
+           | d :: r1 =>
+               if V11.sp2 c d then flush cur ++ fields_go [] r1
+               else match r1 with
+                    | e :: r2 => if V11.sp3 c d e then flush cur ++ fields_go [] r2 else fields_go (c :: cur) r
+                    | [] => fields_go (c :: cur) r
+                    end
+           | [] => fields_go (c :: cur) r
+           end
   end.
 Definition fields (x : str) : list str := fields_go [] x.
 
@@ -150,7 +161,7 @@ Definition gschema (sch : SchemaDefs.schema) : C9G.schema fd := map gdesc (activ
 Definition decode_para (sch : SchemaDefs.schema) (p : R2.para) : option (list cval) :=
   C9G.decode fd cval czero cdecode (gschema sch) (R2.values p).
 Definition decode_text (sch : SchemaDefs.schema) (text : str) : option (list cval) :=
-  match R2.next R2.empty_para [] (GS.lines_of text) with
+  match R2u.next_u R2.empty_para [] (GS.lines_of text) with
   | R2.RPara p _ => decode_para sch p
   | _ => None
   end.
@@ -164,7 +175,7 @@ Definition convert_para (sch : SchemaDefs.schema) (has_para : bool) (found : R2.
     Some (to_r2 (C9G.convert fd cval cmarshal (gschema sch) r f0))
   else None.
 Definition marshal_text (sch : SchemaDefs.schema) (has_para : bool) (found : R2.para) (r : list cval) : option str :=
-  option_map R2.write_para (convert_para sch has_para found r).
+  option_map R2u.write_para_u (convert_para sch has_para found r).
 
 (* ---- the generic theorems, for these functions ---- *)
 Theorem CX_required_missing : forall sch p f, In f (gschema sch) -> C9G.frequired fd f = true ->
